@@ -76,6 +76,48 @@ func (m *C03) OnStep(w *ops.World, st *ops.Step) {
 		}
 	}
 
+	// a negative NST balance update is slashing applied to pending records: after the withdrawable balance,
+	// the staker's pending undelegations absorb exactly min(rest, what they still owe)
+	if st.Kind == "nst_update" && st.Ack && st.Amount.IsNegative() && st.Staker != nil && st.Asset != nil {
+		wd := Z{}
+		if row, ok := pre.Staker[st.Staker.ID+"/"+st.Asset.ID]; ok {
+			wd = ZI(row.WithdrawableAmount)
+		}
+		owed, cut := Z{}, Z{}
+		n := 0
+		for k, r := range pre.Undel {
+			if r.StakerID != st.Staker.ID || r.AssetID != st.Asset.ID {
+				continue
+			}
+			n++
+			owed = owed.Add(ZI(r.ActualCompletedAmount))
+			if q, ok := post.Undel[k]; ok {
+				cut = cut.Add(ZI(r.ActualCompletedAmount).Sub(ZI(q.ActualCompletedAmount)))
+			}
+		}
+		rest := ZI(st.Amount.Neg()).Sub(wd)
+		if rest.Sign() < 0 {
+			rest = Z{}
+		}
+		want := rest
+		if owed.LT(want) {
+			want = owed
+		}
+		if n > 0 {
+			m.S.Eval("nst-slash-on-pending")
+			cls := "untouched"
+			if want.IsPositive() && want.LT(owed) {
+				cls = "ends-inside-pending"
+			} else if want.IsPositive() {
+				cls = "consumes-all-pending"
+			}
+			m.S.Case("nst-slash-on-pending|" + cls)
+			if !cut.Equal(want) {
+				m.S.Violate("nst-slash-not-applied-to-pending", cls, m.Hist, st.I, "NST decrease %s (withdrawable %s): pending records of %s lost %s in total, want %s (they owed %s)", st.Amount, wd, st.Staker.ID, cut, want, owed)
+			}
+		}
+	}
+
 	// new records
 	var newKeys []string
 	for k := range post.Undel {
